@@ -56,10 +56,16 @@ def classify(rc, out):
     return "harness"
 
 
+def _special(population):
+    """population > 0: N caller threads alive at once; population < 0: big-input profile of depth -N"""
+    if not population:
+        return []
+    return ["--population", str(population)] if population > 0 else ["--big", str(-population)]
+
+
 def run_one(scn_seed, miri_seed, threads_mask=None, max_ops=None, population=None):
     args = ["cargo", "+nightly", "miri", "run", "--offline", "-q", "--", str(scn_seed)]
-    if population:
-        args += ["--population", str(population)]
+    args += _special(population)
     if threads_mask is not None:
         args += ["--threads-mask", str(threads_mask)]
     if max_ops is not None:
@@ -88,8 +94,7 @@ def run_one(scn_seed, miri_seed, threads_mask=None, max_ops=None, population=Non
 def list_plan(scn_seed, threads_mask=None, max_ops=None, population=None):
     # native listing (no interpretation needed): the plan is a pure function of the scenario seed
     args = ["cargo", "+nightly", "miri", "run", "--offline", "-q", "--", str(scn_seed), "--list"]
-    if population:
-        args += ["--population", str(population)]
+    args += _special(population)
     if threads_mask is not None:
         args += ["--threads-mask", str(threads_mask)]
     if max_ops is not None:
@@ -103,6 +108,18 @@ def minimise(fail, jobs):
     seeds are tried per candidate; a candidate is accepted only if the same kind of failure shows."""
     kind = fail["kind"]
     best = dict(fail)
+    if (fail.get("population") or 0) < 0:
+        # big-input profile: smaller inputs, side by side
+        n = -fail["population"]
+        cands = [c for c in (n - 2, n - 1) if c >= 3]
+        with ThreadPoolExecutor(max_workers=jobs) as ex:
+            res = list(ex.map(lambda c: run_one(fail["scn_seed"], fail["miri_seed"], None, None, -c), cands))
+        for r in res:
+            if r["kind"] == kind:
+                best = r
+                break
+        best["shrink_evals"] = len(cands)
+        return best
     if fail.get("population"):
         # population profile: one round of smaller populations, run side by side (an execution costs
         # about one second per thread)
@@ -158,7 +175,8 @@ def minimise(fail, jobs):
 
 
 def population_pairs(seed, executions):
-    pops = [130, 33] if executions <= 256 else [257, 131, 130, 129, 129, 66, 65, 34, 33, 18, 17]
+    # (negative: big-input profile, two threads with one call each on inputs of 5*4^(d-1) cells)
+    pops = [130, 33, -7, -5] if executions <= 256 else [257, 131, 130, 129, 129, 66, 65, 34, 33, 18, 17, -7, -7, -7, -6, -6, -5, -8]
     return [((seed * 31 + 977 * j) % (1 << 48), (seed + 7 * j) % (1 << 31), n) for j, n in enumerate(pops)]
 
 
@@ -289,7 +307,8 @@ def run_engine(seed, executions, jobs, replay_dir, seeds_per_scenario=4, populat
         "executions": len(results),
         "executions_per_hour": int(len(results) / run_wall * 3600),
         "scenario_seeds": n_scn,
-        "population_profile_executions(threads alive at once)": {str(n): 1 for n in set(pops)} if len(set(pops)) == len(pops) else {str(n): pops.count(n) for n in sorted(set(pops))},
+        "population_profile_executions(threads alive at once)": {str(n): pops.count(n) for n in sorted(set(pops)) if n > 0},
+        "big_input_profile_executions(cells per argument; oracle = data-race detector)": {str(5 * 4 ** (-n - 1)): pops.count(n) for n in sorted(set(pops)) if n < 0},
         "miri_seeds_per_scenario": seeds_per_scenario,
         "outcomes": kinds,
         "simulated_time": {"note": "no clock in the system; logical steps", "operations_executed": total_ops},
